@@ -320,7 +320,20 @@ def write_evidence(prop, tier, seed, engine, results, wall_s, *, violations, kno
 # the check
 # ----------------------------------------------------------------------------------------
 
+def _sweep_stale_scratch(max_age_s=6 * 3600):
+    """Scratch roots are removed after every run; a killed check can leave some behind.  Remove old ones."""
+    root = pathlib.Path(tempfile.gettempdir())
+    now = time.time()
+    for d in root.glob('emsverif-*'):
+        try:
+            if now - d.stat().st_mtime > max_age_s:
+                shutil.rmtree(d, ignore_errors=True)
+        except OSError:
+            pass
+
+
 def run_check(prop, tier, seed, *, n_runs=None, budget_s=None, workers=None):
+    _sweep_stale_scratch()
     engine_name = PROPERTY_ENGINE[prop]
     engine = get_engine(engine_name)
     n_runs = n_runs or engine.budget(prop, tier)['runs']
